@@ -23,18 +23,64 @@ ALLOWED_AXIOMS = []
 TRUSTED_BASE = [
     "coqc 8.16.1 kernel (vm_compute used for flag membership facts; no native_compute)",
     "no axioms: every theorem of coq/C09/Properties.v is 'Closed under the global context'",
-    "translator harness/C01/scrape.py:scrape_cflags (regex scrape of compilers_flags.<cc> in cdefs.lua with tabler.updatecopy inheritance) and the regex for `conf.pragmas.nochecks = true` under `conf.maximum_performance or conf.release` in configer.lua",
+    "translators: harness/C01/scrape.py (owned by C01, shared): scrape_cflags (regex scrape of compilers_flags.<cc> in cdefs.lua with tabler.updatecopy inheritance), scrape_div_guard, scrape_vardecl_policy (which emitter receives which statement of visitors.VarDecl); in checks/C09.py: the regex for `conf.pragmas.nochecks = true` under `conf.maximum_performance or conf.release` in configer.lua, the conjuncts of VarDecl's branch for dropped variables, the early return of visitors.FuncDef",
+    "cross-property files: coq/C09/{CSem,Helpers,ProofsBase,ProofsDiv}.v are COPIES of coq/C03 and coq/C09/Order.v is a COPY of coq/C01/Order.v, rewritten by checks/C01.py:sync_shared during gen (coq/C09/VarDecl.v is the source copied to coq/C01); checks/C09.py imports checks/C01.py (sync_shared, write_modules) and harness/C01/{scrape,progs,vardecl}.py and runs harness/C03/ubdrv.nelua: a change there changes this check",
     "extraction: Require Extraction + ExtrOcamlBasic only; ocaml/zutil.ml + coq/C09/driver.ml",
-    "harnesses: harness/C09/isused.lua (drives the real nelua.symbol module), harness/C01/progs.py (program generator), the real compiler with gcc 12 / clang 14",
-    "modelled rather than verified: coq/C09/CSem.v, Helpers.v (shared with C01/C03), Model.v (Symbol:is_used, emission condition, configuration flags)",
+    "harnesses: harness/C09/isused.lua (drives the real nelua.symbol module), harness/C09/chkdrv.nelua and harness/C03/ubdrv.nelua (probes built with checks on / off), harness/C01/progs.py and vardecl.py (program generators), `nelua --verbose` for the compile command, the real compiler with gcc 12 / clang 14",
+    "modelled rather than verified: coq/C09/CSem.v, Helpers.v (shared with C01/C03), Model.v (Symbol:is_used, emission condition, configuration flags: the selection `base; release | devel` of ccompiler.get_compiler_cflags is hard-coded in cflags_of and compared with the real command line for 2 compilers x 4 configurations on every run), VarDecl.v (two emitters), Order.v",
 ]
 ASSUMPTIONS = [
     "what the C optimiser does with the emitted C is not modelled: only sampled by the differential builds (testing)",
     "the usedby graph is final when the C generator queries is_used (no cached `used = false` from an earlier query)",
-    "C dialect assumptions of coq/C03/CSem.v",
+    "C dialect assumptions of coq/C03/CSem.v; the dialect is the one the scraped base flags select (-fwrapv): user --cflags that undo it (-fno-wrapv, -ftrapv) are outside the statement",
     "the sign of a printed NaN is not compared between configurations (unspecified by IEEE 754, differs between gcc and clang constant folding)",
+    "C leaves the order of the operands of an operator and of call arguments to the compiler: programs whose result depends on it differ between gcc and clang (C09_compiler_independent_refuted, known finding); the generated programs avoid reading a variable next to a call that writes it",
 ]
+# clauses of the statement that no theorem covers (testing only, or nothing)
+UNPROVED = [
+    "no program-level theorem: there is no program syntax/semantics in coq/C09; the helper, DCE, declaration-order and flag theorems are not composed into `same output for every program`",
+    "-O0/-O1/-O2/-O3 and gcc vs clang (the C optimiser): differential builds only (quick: 2 fixed + 4 random repository programs, 3 corpus programs, 6 generated programs x 7 configurations)",
+    "checks other than idiv/imod/bounds/deref/integer narrowing/library check(): nelua_assert_string2cstring, the shift helpers' checks, `check` calls inside the standard library: builds only",
+    "`the unchecked program performs the same memory accesses`: not stated",
+    "float -> integer narrowing: both modes undefined outside the target range (C09_narrow_f2i_pass_same_refuted; finding recorded and replayed under UBSan by C03)",
+    "the edge `emitted C of d references s  =>  s in usedby(d)` of the DCE graph is not modelled (the is_used theorems are about the graph the analyzer built)",
+    "VarDecl.v models the order of the effects of a declaration only: must_declare_at_runtime / must_define_at_runtime / `not defined` branches, the require branch and visitors.Assign are not modelled (vardecl stream and builds only)",
+    "expressions whose functions write variables: order of unsequenced operands is compiler-dependent (refuted); the positive theorem for write-free functions is C01_order_preserved_partial in coq/C01, not restated here",
+    "maximum_performance, debug, sanitize, shared/static library configurations and user --cflags are not in cflags_of",
+]
+THEOREM_CLASSES = {
+    "C09_idiv_checked_eq_unchecked": "tripwire",      # content = the scraped position of the b == -1 line; also satisfied by two undefined runs
+    "C09_imod_checked_eq_unchecked": "tripwire",
+    "C09_unchecked_min_neg1": "main",
+    "C09_checks_pass_same_value": "main",
+    "C09_narrow_f2i_pass_same_refuted": "refutation",
+    "C09_narrow_f2i_pass_same_partial": "main",
+    "C09_narrow_checked_eq_unchecked": "definitional",
+    "C09_bounds_deref_check_eq_unchecked": "definitional",
+    "C09_bounds_pass_iff_in_bounds": "main",
+    "C09_is_used_is_reachability": "main",
+    "C09_is_used_fuel_adequate": "main",
+    "C09_dce_sound": "corollary",
+    "C09_dce_keeps_roots": "corollary",
+    "C09_emitted_iff_nodce_or_reachable": "main",
+    "C09_unused_initializer_evaluated": "main",
+    "C09_dead_initializer_kept_whatever_attr": "tripwire",
+    "C09_vardecl_order_refuted": "refutation",
+    "C09_vardecl_order_iff_policy": "main",
+    "C09_vardecl_effects_partial": "main",
+    "C09_compiler_independent_refuted": "refutation",
+    "C09_base_flags_always": "main",
+    "C09_release_config": "main",
+    "C09_plain_ops_defined_with_base_flags": "main",
+    "C09_fwrapv_needed": "corollary",
+}
+MANIFEST_ENTRY = {
+    "text": "proof, partial: theorems cover (a) the run-time checks removed by nochecks/release - a passing idiv/imod/bounds/deref/integer-narrowing/check() leaves the same value with the check removed (float narrowing refuted), (b) dead code elimination - Symbol:is_used is reachability along usedby, fuel adequate, emitted = nodce or reachable, the initializer of a dropped variable is still evaluated, and the ORDER of a declaration's effects is independent of DCE iff dropped initializers go to defemitter (refuted for today's generator, known finding), (c) the flag tables: base flags in every configuration, release => nochecks, -O2 -DNDEBUG; + - * unary minus defined under the base flags.  Rest on differential testing only: the whole-program statement `same output in every build mode`, every -O level, gcc vs clang, all other checks.",
+    "note": "no axioms; tie: scraped cdefs.lua/configer.lua/cbuiltins.lua/cgenerator.lua facts in Gen.v, extracted model run against the real Symbol:is_used, against the emitted helpers in checked and nochecks builds, against the real compile command line, and against default / -P nodce builds of generated declarations; depends on files of C01 and C03 (coq/C03/{CSem,Helpers,ProofsBase,ProofsDiv}.v and coq/C01/Order.v copied by checks/C01.py:sync_shared, harness/C01/{scrape,progs,vardecl}.py, harness/C03/ubdrv.nelua)",
+    "technique": "Coq theorems about an executable Gallina model + generated parameters + behavioural correspondence of the extracted model; differential builds",
+}
 
+FLAG_TABLE = {}
 FLAG_CODES = {"-fwrapv": 1, "-fno-strict-aliasing": 2, "-O2": 3, "-DNDEBUG": 4, "-g": 5}
 
 
@@ -70,6 +116,7 @@ def gen(ctx):
             scraped["%s.%s" % (cc, k)] = v
             lines.append("Definition %s_%s : list nat := %s.  (* %s *)" % (cc, k, enc(v), v))
     lines.append("Definition gcc_base_has_fwrapv : bool := %s." % ("true" if "-fwrapv" in fl["gcc"]["cflags_base"].split() else "false"))
+    lines.append("Definition clang_base_has_fwrapv : bool := %s." % ("true" if "-fwrapv" in fl["clang"]["cflags_base"].split() else "false"))
     lines.append("Definition release_implies_nochecks : bool := %s." % ("true" if rel_nochecks else "false"))
     guard = scrape.scrape_div_guard(vlib.repo_read("lualib/nelua/cbuiltins.lua"))
     lines.append("(* cbuiltins.nelua_idiv_/nelua_imod_: the `b == -1` line is emitted before `if checked then` *)")
@@ -106,12 +153,20 @@ def gen(ctx):
     fd = re.search(r"if not context\.pragmas\.nodce and not attr:is_used\(true\) then\s*\n\s*return", cg)
     lines.append("(* visitors.FuncDef returns early exactly when `not nodce and not is_used(true)` *)")
     lines.append("Definition funcdef_dce_condition_found : bool := %s." % ("true" if fd else "false"))
+    pol = scrape.scrape_vardecl_policy(cg)
+    lines.insert(3, "From C09 Require Import VarDecl.")
+    lines.append("(* cgenerator.visitors.VarDecl: does the bare initializer of a variable dropped by dead code elimination /")
+    lines.append("   the `_asgnret = call` statement of a trailing multiple-return call go to `defemitter` (appended last)? *)")
+    lines.append("Definition vardecl_policy : vd_policy := mk_vdp %s %s." % ("true" if pol["dead_in_def"] else "false", "true" if pol["asgnret_in_def"] else "false"))
+    scraped["vardecl_policy"] = pol
     scraped["vardecl_dead_init_condition"] = " ".join(m2.group(1).split())
     scraped["vardecl_dead_init_unknown_conjuncts"] = unknown
     lines.append("")
     vlib.write_if_changed(os.path.join(vlib.coq_dir(ID), "Gen.v"), "\n".join(lines))
     scraped["release_implies_nochecks"] = rel_nochecks
     scraped["flag_codes"] = codes
+    global FLAG_TABLE
+    FLAG_TABLE = dict(codes)
     return scraped
 
 
@@ -312,6 +367,253 @@ def stream_builds(ctx, interp, cov):
     return len(jobs), len(usable) * len(configs), [cands[i][0] for i in usable[:2]]
 
 
+
+# ---------------------------------------------------------------------------
+# the helper models executed against the compiler, in both build modes
+# ---------------------------------------------------------------------------
+M64 = 1 << 64
+ITY = {"i8": (8, True), "i16": (16, True), "i32": (32, True), "i64": (64, True),
+       "u8": (8, False), "u16": (16, False), "u32": (32, False), "u64": (64, False)}
+NELUA_TY = {"int8": "i8", "int16": "i16", "int32": "i32", "int64": "i64", "uint8": "u8", "uint16": "u16", "uint32": "u32", "uint64": "u64"}
+CHK_INDEX_TYPES = ["int64", "uint64", "int8", "uint8", "int32"]                 # harness/C09/chkdrv.nelua
+CHK_PAIRS = [("int64", "int8"), ("int64", "uint8"), ("int64", "int32"), ("int64", "uint32"), ("int64", "uint64"),
+             ("uint64", "int64"), ("int32", "uint16"), ("uint32", "int16")]
+UBDRV_TYPES = ["i8", "i16", "i32", "i64"]                                       # harness/C03/ubdrv.nelua, type index 1..4
+
+
+def hexs(v):
+    return ("-%x" % -v) if v < 0 else "%x" % v
+
+
+def wrap_to(t, v):
+    bits, signed = ITY[t]
+    v %= 1 << bits
+    return v - (1 << bits) if signed and v >= 1 << (bits - 1) else v
+
+
+def to64(v):
+    v %= M64
+    return v - M64 if v >= 1 << 63 else v
+
+
+def lattice(t):
+    bits, signed = ITY[t]
+    lo, hi = (-(1 << (bits - 1)), (1 << (bits - 1)) - 1) if signed else (0, (1 << bits) - 1)
+    L = {lo, lo + 1, hi, hi - 1, 0, 1, 2, 3, 7, hi // 2, hi // 2 + 1}
+    if signed:
+        L |= {-1, -2, -3, -7, lo // 2}
+    return sorted(x for x in L if lo <= x <= hi)
+
+
+def outcome_text(o):
+    """model outcome -> what the program prints ('panic' / 'ub' stay)"""
+    if o.startswith("v:"):
+        h = o[2:]
+        return str(-int(h[1:], 16) if h.startswith("-") else int(h, 16))
+    return o
+
+
+def stream_checks(ctx, driver, cov):
+    """idiv_helper / imod_helper / h_bounds / h_narrow_int against the emitted helpers, checks on (default build)
+    and off (-P nochecks).  A case the model says stops the program is run on its own and must die with the
+    run-time error; a case the model says is undefined without the check is not executed (counted)."""
+    rng = ctx.rng
+    d = os.path.join(ctx.work, "checks")
+    os.makedirs(d, exist_ok=True)
+    srcs = {"ubdrv": os.path.join(vlib.VERIF, "harness", "C03", "ubdrv.nelua"),
+            "chkdrv": os.path.join(vlib.VERIF, "harness", ID, "chkdrv.nelua")}
+    jobs = []
+    for prog, src in srcs.items():
+        for mode, extra in (("checked", []), ("nochecks", ["-P", "nochecks"])):
+            jobs.append((prog, mode, src, os.path.join(d, "%s-%s" % (prog, mode)), extra))
+    jobs.append(("chkdrv", "release", srcs["chkdrv"], os.path.join(d, "chkdrv-release"), ["--release"]))
+
+    def build(j):
+        prog, mode, src, out, extra = j
+        rc, o, e = vlib.nelua(["--no-cache", "--cache-dir", out + ".cache", "-b", "-o", out] + extra + [src], timeout=600)
+        return (prog, mode), (rc, out, (o + e)[-800:])
+    with cf.ThreadPoolExecutor(max_workers=4) as ex:
+        exes = dict(ex.map(build, jobs))
+    for k, (rc, out, log) in exes.items():
+        if rc != 0:
+            ctx.violation("harness-run:checks:%s-%s" % k, "harness", "probe does not build: %s" % log, failing_input=False)
+            return 0, 0, []
+    # cases: (program, input line, model line, description, panic text)
+    cases = []
+    for ti, t in enumerate(UBDRV_TYPES):
+        L = lattice(t)
+        extra = [(rng.choice(L), rng.choice(L)) for _ in range(4)] + \
+                [(wrap_to(t, rng.getrandbits(64)), wrap_to(t, rng.getrandbits(rng.choice([3, 8, 64])))) for _ in range(ctx.scale(20, 400))]
+        for a, b in [(a, b) for a in L for b in L] + extra:
+            for op, name in ((4, "idiv"), (5, "imod")):
+                cases.append(("ubdrv", "%d %d %d %d" % (ti + 1, op, a, b), "pair %s %s %s %s" % (name, t, hexs(a), hexs(b)),
+                              "%s %s %d %d" % (t, name, a, b), "division by zero"))
+    IDX = [-(1 << 63), -(1 << 31) - 1, -129, -128, -2, -1, 0, 1, 5, 6, 7, 8, 127, 128, 255, 256, 263, (1 << 31), (1 << 32) + 3, (1 << 63) - 1]
+    for ti, tn in enumerate(CHK_INDEX_TYPES):
+        t = NELUA_TY[tn]
+        for a in IDX:
+            i = wrap_to(t, a)          # the probe casts the int64 it reads to the index type (no check)
+            cases.append(("chkdrv", "1 %d %d" % (ti + 1, a), "bounds %s %s %s" % (t, hexs(i), hexs(7)),
+                          "bounds %s index %d of 7" % (t, i), "out of bounds"))
+    for pi, (sn, dn) in enumerate(CHK_PAIRS):
+        st, dt = NELUA_TY[sn], NELUA_TY[dn]
+        for x in sorted(set(lattice(st)) | {wrap_to(st, v) for v in lattice(dt)} | {wrap_to(st, rng.getrandbits(64)) for _ in range(6)}):
+            cases.append(("chkdrv", "2 %d %d" % (pi + 1, to64(x)), "narrow %s %s %s" % (st, dt, hexs(x)),
+                          "narrow %s -> %s of %d" % (st, dt, x), "narrow casting"))
+    rc, mout, merr = vlib.sh([driver], input="\n".join(c[2] for c in cases) + "\n", timeout=600)
+    ml = mout.split("\n")
+    if rc != 0 or len(ml) < len(cases):
+        ctx.violation("harness-run:checks-model", "harness", "model driver failed: %s" % merr[-300:], failing_input=False)
+        return 0, 0, []
+    n_mm = [0]
+    stat = {"cases": len(cases), "checked_values": 0, "checked_stops": 0, "unchecked_values": 0, "unchecked_undefined_not_run": 0, "pass_same_value": 0}
+
+    def mismatch(what):
+        n_mm[0] += 1
+        if n_mm[0] <= 4:
+            ctx.violation("model-mismatch:checks", "correspondence", what, detail={"no_longer_checks": "correspondence stream C09/checks"}, failing_input=False)
+
+    for mode, col in (("checked", 0), ("nochecks", 1)):
+        for prog in ("ubdrv", "chkdrv"):
+            exe = exes[(prog, mode)][1]
+            sel = [(c, ml[k].split()) for k, c in enumerate(cases) if c[0] == prog]
+            batch = [(c, m) for c, m in sel if len(m) == 2 and m[col].startswith("v:")]
+            if col == 1:
+                # the unchecked bounds helper returns the index, the access that follows it is undefined out of
+                # bounds: only the in-bounds indices (C09_bounds_pass_iff_in_bounds) are executed without the check
+                oob = [(c, m) for c, m in batch if c[2].startswith("bounds") and not m[0].startswith("v:")]
+                stat["unchecked_undefined_not_run"] += len(oob)
+                batch = [x for x in batch if x not in oob]
+            rc, o, e = vlib.sh([exe], input="\n".join(c[1] for c, _ in batch) + "\n", timeout=300)
+            ol = o.split("\n")
+            if rc != 0 or len(ol) < len(batch):
+                mismatch("%s build of %s stops (rc %s, %s) on a batch of cases the model says return a value" % (mode, prog, rc, e.strip()[-200:]))
+                continue
+            for (c, m), line in zip(batch, ol):
+                stat["checked_values" if col == 0 else "unchecked_values"] += 1
+                if line.strip() != outcome_text(m[col]):
+                    mismatch("%s [%s]: the emitted code prints %s, the model says %s" % (c[3], mode, line.strip(), outcome_text(m[col])))
+                elif col == 1 and m[0].startswith("v:"):
+                    stat["pass_same_value"] += m[0] == m[1]
+                    if m[0] != m[1]:
+                        mismatch("%s: the model's checked and unchecked values differ (%s, %s): theorem C09_checks_pass_same_value" % (c[3], m[0], m[1]))
+            if col == 0:
+                stops = [(c, m) for c, m in sel if len(m) == 2 and m[0] == "panic"]
+
+                def run1(cm):
+                    return vlib.sh([exe], input=cm[0][1] + "\n", timeout=60)
+                with cf.ThreadPoolExecutor(max_workers=4) as ex:
+                    for (c, m), r in zip(stops, ex.map(run1, stops)):
+                        stat["checked_stops"] += 1
+                        if r[0] == 0 or c[4] not in r[2]:
+                            mismatch("%s [checked]: the model says the check stops the program; rc %s stdout %r stderr %r" % (c[3], r[0], r[1][:80], r[2][-120:]))
+            else:
+                stat["unchecked_undefined_not_run"] += sum(1 for c, m in sel if len(m) == 2 and m[1] == "ub")
+            bad = [(c, m) for c, m in sel if len(m) != 2 or not (m[col].startswith("v:") or m[col] in ("panic", "ub"))]
+            for c, m in bad[:2]:
+                mismatch("model output for `%s`: %r" % (c[2], m))
+    # release => nochecks (configer.lua): a narrowing that fails with checks on wraps in a --release build
+    rc, mo, me = vlib.sh([driver], input="cflags gcc release\n", timeout=60)
+    rel_nochecks = "nochecks=1" in mo
+    r = vlib.sh([exes[("chkdrv", "release")][1]], input="2 1 128\n", timeout=60)
+    stat["release_narrow_128_to_int8"] = {"rc": r[0], "stdout": r[1].strip(), "model_nochecks": rel_nochecks}
+    if (r[0] == 0 and r[1].strip() == "-128") != rel_nochecks:
+        mismatch("--release build narrowing 128 to int8: rc %s stdout %r; the model says release %s nochecks" % (r[0], r[1].strip(), "implies" if rel_nochecks else "does not imply"))
+    stat["model_mismatches"] = n_mm[0]
+    cov["checks"] = stat
+    return len(cases) * 2, len(set(c[2] for c in cases)), [cases[0][3], cases[-1][3]]
+
+
+CFLAG_CONFIGS = [("default", []), ("release", ["--release"]), ("nochecks", ["-P", "nochecks"]), ("nodce", ["-P", "nodce"])]
+
+
+def stream_cflags(ctx, driver, cov):
+    """cflags_of against the command line the real compiler driver runs (nelua --verbose prints it)"""
+    d = os.path.join(ctx.work, "cflags")
+    os.makedirs(d, exist_ok=True)
+    src = os.path.join(d, "p.nelua")
+    open(src, "w").write("print(1)\n")
+    names = {v: k for k, v in FLAG_TABLE.items()}
+    jobs = [(cc, cname, extra) for cc in ("gcc", "clang") for cname, extra in CFLAG_CONFIGS]
+
+    def run(j):
+        cc, cname, extra = j
+        out = os.path.join(d, "p-%s-%s" % (cc, cname))
+        return vlib.nelua(["--verbose", "--no-cache", "--cache-dir", out + ".cache", "--cc", cc, "-b", "-o", out] + extra + [src], timeout=300)
+    rc, mo, me = vlib.sh([driver], input="\n".join("cflags %s %s" % (cc, cname) for cc, cname, _ in jobs) + "\n", timeout=60)
+    ml = mo.split("\n")
+    res, n_mm = {}, 0
+    with cf.ThreadPoolExecutor(max_workers=4) as ex:
+        for k, ((cc, cname, extra), (rc, o, e)) in enumerate(zip(jobs, ex.map(run, jobs))):
+            cmd = [l for l in (o + e).split("\n") if l.startswith(cc + " ") and " -o " in l and "p-%s-%s" % (cc, cname) in l]
+            if rc != 0 or not cmd:
+                ctx.violation("harness-run:cflags:%s-%s" % (cc, cname), "harness", "no compile command in the --verbose output (rc %s): %s" % (rc, (o + e)[-300:]), failing_input=False)
+                continue
+            toks = cmd[-1].split()
+            real = [t for t in toks[1:] if t.startswith("-") and t not in ("-x", "-o", "-Wno-unused-command-line-argument")]
+            model = [names.get(int(c), "?%s" % c) for c in ml[k].split()[1:]]
+            res["%s %s" % (cc, cname)] = " ".join(real)
+            if real != model:
+                n_mm += 1
+                ctx.violation("model-mismatch:cflags", "correspondence",
+                              "%s, configuration %s: the compiler driver passes `%s`, cflags_of says `%s`" % (cc, cname, " ".join(real), " ".join(model)),
+                              detail={"command": cmd[-1], "no_longer_checks": "correspondence stream C09/cflags"}, failing_input=False)
+    cov["cflags"] = {"command_lines": res, "model_mismatches": n_mm}
+    return len(jobs)
+
+
+def stream_vardecl(ctx, driver, cov):
+    """multi-variable declarations whose values print when evaluated: default build and -P nodce against the
+    effect order of coq/C09/VarDecl.v (placement of the statements scraped from cgenerator.lua)"""
+    import random
+    import vardecl
+    rng = random.Random(ctx.rng.getrandbits(40))
+    d = os.path.join(ctx.work, "vardecl")
+    os.makedirs(d, exist_ok=True)
+    per = 60
+    nb = ctx.scale(1, 8)
+    n_cases = n_mm = n_pred = n_same = 0
+    sample = []
+    for bi in range(nb):
+        cases = [vardecl.gen_case(rng) for _ in range(per)]
+        ntext, _ = vardecl.batch_programs(cases)
+        src = os.path.join(d, "vd%d.nelua" % bi)
+        open(src, "w").write(ntext)
+        rc, mo, me = vlib.sh([driver], input="\n".join(vardecl.model_line(c) for c in cases) + "\n", timeout=120)
+        ml = [vardecl.parse_model(x) for x in mo.strip().split("\n")]
+        with cf.ThreadPoolExecutor(max_workers=2) as ex:
+            r = list(ex.map(build_and_run, [(src, os.path.join(d, "vd%d-default" % bi), [], d, []),
+                                            (src, os.path.join(d, "vd%d-nodce" % bi), ["-P", "nodce"], d, [])]))
+        if any(x[0] != "run" or x[1] != 0 for x in r) or len(ml) != len(cases):
+            ctx.violation("harness-run:vardecl", "harness", "vardecl batch failed: %s" % [x[:2] + (x[3][-200:],) for x in r], failing_input=False)
+            continue
+        outs = {"dce": vardecl.parse_output(r[0][2], len(cases)), "nodce": vardecl.parse_output(r[1][2], len(cases))}
+        for k, c in enumerate(cases):
+            n_cases += 1
+            m = ml[k]
+            line = vardecl.model_line(c)
+            if not sample:
+                sample.append(line)
+            bad = [x for x in ("dce", "nodce") if outs[x][k][0] != m[x]]
+            if m["wf"] != "1" or bad:
+                n_mm += 1
+                if n_mm <= 3:
+                    ctx.violation("model-mismatch:vardecl", "correspondence",
+                                  "declaration `%s` (%s): effects run in the order %s by default and %s with -P nodce; the model says %s and %s" %
+                                  (line, c["form"], outs["dce"][k][0], outs["nodce"][k][0], m["dce"], m["nodce"]),
+                                  detail={"nelua_source": vardecl.programs(c, k)[0], "no_longer_checks": "correspondence stream C09/vardecl"}, failing_input=False)
+            elif outs["dce"][k][1] != outs["nodce"][k][1]:
+                ctx.violation("vardecl-values:%s" % line, "oracle", "declaration `%s`: the variables hold %r by default and %r with -P nodce" % (line, outs["dce"][k][1], outs["nodce"][k][1]),
+                              detail={"nelua_source": vardecl.programs(c, k)[0]})
+            elif m["dce"] != m["nodce"]:
+                n_pred += 1         # the known defect (C09_vardecl_order_refuted), in the order the model of today's generator predicts
+            else:
+                n_same += 1
+    cov["vardecl"] = {"declarations": n_cases, "same_order_in_both_modes": n_same,
+                      "order_differs_as_predicted_by_C09_vardecl_order_refuted": n_pred, "model_mismatches": n_mm}
+    return n_cases * 2, n_cases, sample
+
+
 # exact programs on which two configurations of the unchanged tree disagree (known_findings/C09.json)
 WITNESS_BUILDS = [
     ("build: show(bump(), bump()) with bump doing g.n = g.n + 1; return g.n: --cc clang vs default (gcc)",
@@ -319,6 +621,8 @@ WITNESS_BUILDS = [
      "local function show(a: integer, b: integer) print(a, b) end\nshow(bump(), bump())\n", ["--cc", "clang"]),
     ("build: print(x + f()) with f assigning the global x: --cc clang vs default (gcc)",
      "global x: integer = 1\nlocal function f(): integer x = 10 return 100 end\nprint(x + f())\n", ["--cc", "clang"]),
+    ("build: local a, b = f(), g() with b never read (f and g print): -P nodce vs default",
+     "@corpus/C09/witness/vardecl_order.nelua", ["-P", "nodce"]),
 ]
 
 
@@ -328,6 +632,8 @@ def stream_witness_builds(ctx, cov):
     res = {}
     for i, (key, src, extra) in enumerate(WITNESS_BUILDS):
         f = os.path.join(d, "w%d.nelua" % i)
+        if src.startswith("@"):
+            src = vlib.read(os.path.join(vlib.VERIF, src[1:]))
         open(f, "w").write(src)
         a = build_and_run((f, os.path.join(d, "w%d-default" % i), [], d, []))
         b = build_and_run((f, os.path.join(d, "w%d-other" % i), extra, d, []))
@@ -347,6 +653,9 @@ def correspond(ctx):
     n1, d1, s1 = stream_isused(ctx, driver, interp, cov)
     n2, d2, s2 = stream_builds(ctx, interp, cov)
     n2 += stream_witness_builds(ctx, cov)
+    n3, d3, s3 = stream_checks(ctx, driver, cov)
+    n4, d4, s4 = stream_vardecl(ctx, driver, cov)
+    n2, d2, s2 = n2 + n3 + n4 + stream_cflags(ctx, driver, cov), d2 + d3 + d4, s2 + s3 + s4
     return {
         "evaluations": n1 + n2,
         "distinct_nontrivial": d1 + d2,
